@@ -21,7 +21,8 @@ TRUSTED = ["tokio oneshot delivers at most one value"]
 
 MUTANTS = [
     {"name": "pop-back", "file": "src/proxy/backend.rs", "old": "                let mut task = match tasks.pop_front() {", "new": "                let mut task = match tasks.pop_back() {", "expect": "C08.D2:fifo-ops"},
-    {"name": "set_result-by-ref-sender-clone", "file": "src/proxy/command.rs", "old": "#[derive(Debug)]\npub struct CmdReplySender {", "new": "#[derive(Debug, Clone)]\npub struct CmdReplySender {", "expect": "C08.D1"},
+    {"name": "drop-does-not-answer", "file": "src/proxy/command.rs", "old": "        self.try_send(Err(CommandError::Dropped));", "new": "        let _ = self.reply_sender.is_some();", "expect": "C08.D1"},
+    {"name": "channel-peeked-not-taken", "file": "src/proxy/command.rs", "old": "        match self.try_send(res) {\n            Some(res) => res,", "new": "        if self.reply_sender.is_none() {\n            return Ok(());\n        }\n        match self.try_send(res) {\n            Some(res) => res,", "expect": "C08.D1:channel-only-via-take"},
     {"name": "packet-popped-before-ready", "file": "src/proxy/backend.rs", "old": "                match writer.as_mut().poll_ready(cx) {\n                    Poll::Pending => break Ok(()),\n                    Poll::Ready(Ok(())) => (),\n                    Poll::Ready(Err(err)) => break Err(err),\n                }\n\n                match packets.pop_front() {", "new": "                let popped = packets.pop_front();\n                match writer.as_mut().poll_ready(cx) {\n                    Poll::Pending => break Ok(()),\n                    Poll::Ready(Ok(())) => (),\n                    Poll::Ready(Err(err)) => break Err(err),\n                }\n\n                match popped {", "expect": "C08.D2:popped-packet-is-sent"},
     {"name": "timeout-without-drain", "file": "src/proxy/backend.rs", "old": "                    let failed_tasks = tasks.drain(..).collect();\n                    // For timeout we just don't retry as it will take a long time.\n                    let retry_state = handle_conn_err(Some(MAX_BACKEND_RETRY), failed_tasks, &err);", "new": "                    let failed_tasks = vec![];\n                    // For timeout we just don't retry as it will take a long time.\n                    let retry_state = handle_conn_err(Some(MAX_BACKEND_RETRY), failed_tasks, &err);", "expect": "C08.D3"},
     {"name": "conn-err-drops-tasks", "file": "src/proxy/backend.rs", "old": "            task.set_result(Err(cmd_err));\n        }\n        None", "new": "            drop((task, cmd_err));\n        }\n        None", "expect": "C08.D3:handle_conn_err"},
